@@ -196,8 +196,15 @@ def find_method(tree, cls, name):
         if isinstance(n, ast.ClassDef) and n.name == cls:
             for m in n.body:
                 if isinstance(m, ast.FunctionDef) and m.name == name:
+                    no_decorators(m, "%s.%s" % (cls, name))
                     return m
     raise Untranslatable("method %s.%s not found" % (cls, name))
+
+
+def no_decorators(fn, where):
+    """a decorator (a cache, a wrapper) changes what a call of the function does without changing its body: refuse"""
+    if fn.decorator_list:
+        raise Untranslatable("%s:%d: decorated with %s - the body alone no longer says what a call does" % (where, fn.lineno, ", ".join("@" + ast.unparse(d) for d in fn.decorator_list)))
 
 
 def find_stmt(stmts, pred, what):
